@@ -18,6 +18,7 @@ func init() {
 			"R10.2 the query is only ever assigned from url.Values.Encode() of the request's query, static parameters reach it only when the caller has not set that name (key presence in the caller's parameters), and pattern values replace base-path values; R10.3 the scheme comes from pickScheme (transport's own list first), selectScheme scans the WHOLE list for https and returns an element of it, host comes from the runtime; " +
 			"R10.4 every error of URL parsing, request construction and parameter setting is returned. " +
 			"R10.2 also: the caller's parameters are read for the static merge only after the auth writer ran; R10.3 also: client.New stores the base path verbatim (at most a leading slash is added). " +
+			"R10.2 also: SetQueryParam leaves an entry under the name on every successful call (an empty override is still an override). " +
 			"NOT decided: injectivity of escaping (url.PathEscape), value-level precedence outcomes.",
 		Run: runC10,
 	})
